@@ -87,6 +87,7 @@ R.contract("PeerConnection.work_read_queue", params={"self": "PeerConnection", "
 R.macro("stuck", ["b"], "len(b) < 20 or hlen(b) > len(b)")
 R.loop("PeerConnection.work_read_queue", 0,
        invariants=[("no-complete-frame-left-waiting", "stuck(rb(self)) or self.state == %d" % CLOSED)],
+       step_back=[("a-stopped-reader-leaves-at-its-next-iteration", "not prev(_thread.stopped)")],
        local_kinds={"resume_waiting": "bool", "message": "Opt[Message]", "msg_header": "Opt[MessageHeader]"},
        step=[("every-received-chunk-restarts-the-idle-timer",
               "implies(self._read_buffer_queue.g_n > prev(self._read_buffer_queue.g_n), "
